@@ -287,8 +287,13 @@ impl Sub for Duration {
         rhs.normalize();
         match self.centuries.checked_sub(rhs.centuries) {
             None => {
-                // Underflowed, so we've hit the min
-                return Self::MIN;
+                // The difference of centuries does not fit: redo the subtraction on the exact
+                // nanosecond counts, which saturates on the side of the true result.
+                let exact_ns = |d: &Self| {
+                    i128::from(d.centuries) * i128::from(NANOSECONDS_PER_CENTURY)
+                        + i128::from(d.nanoseconds)
+                };
+                return Self::from_total_nanoseconds(exact_ns(&self) - exact_ns(&rhs));
             }
             Some(centuries) => {
                 self.centuries = centuries;
